@@ -79,7 +79,11 @@ def tokens(cases):
 
 
 def authz_rules(c):
-    return [{"resource": r, "name": "", "decision": d} for r, d in sorted(c["authz"].items())]
+    rules = [{"resource": r, "name": "", "sub": "", "decision": d} for r, d in sorted(c["authz"].items())]
+    di = c.get("denyItem") or {}
+    if di.get("res"):      # one single item is not allowed (first matching rule wins)
+        rules.insert(0, {"resource": di["res"], "name": di["name"], "sub": di["sub"], "decision": di["ans"]})
+    return rules
 
 
 def project(events):
@@ -234,13 +238,15 @@ def run(prop, tier, replay):
         use = ident if prop == "C02" else outc + ident[::9]
         rng.shuffle(use)
         if tier == "quick":
-            use = use[:1500 if prop == "C02" else 900]
+            items = [c for c in use if c["c"]["imp"]["extras"] and len(c["c"]["imp"]["extras"]) >= 2 and c["c"]["authz"]["userextras"] == "allow" and c["c"]["impOther"] == []] if prop == "C02" else []
+            rest = [c for c in use if c not in items]
+            use = items + rest[:(1500 if prop == "C02" else 900) - len(items)]
         if replay:
             use = [json.load(open(replay))["case"]]
         # group cases by the authorizer script (one scenario per distinct script), batches of <= 150 requests
         groups = {}
         for c in use:
-            groups.setdefault(vlib.canon(c["c"]["authz"]), []).append(c)
+            groups.setdefault(vlib.canon([c["c"]["authz"], c["c"].get("denyItem")]), []).append(c)
         scs = []
         case_of = {}
         for key, cs in groups.items():
